@@ -21,6 +21,9 @@ TECHNIQUE = "TLA+ contract + TLC; TLC-generated scenarios on 4 ASan-instrumented
 SPEC = os.path.join(VERIF, "spec", "tasking")
 
 
+BURSTY = ("burst", "nested", "reinit")
+
+
 def run_driver(exe, scenarios, threads, tag, timeout=300):
     d = os.path.join(WORK, "run", tag)
     os.makedirs(d, exist_ok=True)
@@ -79,7 +82,7 @@ def run_driver(exe, scenarios, threads, tag, timeout=300):
 
 def classify(backend, sc, evs, k):
     ev = evs[k]
-    kind = {"atask": "AsyncTask<%s>" % sc["type"], "async": "async<%s>" % sc["type"], "burst": "schedule", "nested": "schedule-from-scheduled-closure"}[sc["kind"]]
+    kind = {"atask": "AsyncTask<%s>" % sc["type"], "async": "async<%s>" % sc["type"], "burst": "schedule", "nested": "schedule-from-scheduled-closure", "reinit": "schedule-then-initTaskingSystem"}[sc["kind"]]
     what = ev.get("ev")
     if what == "Abort":
         rep = ev.get("report", "") + ev.get("why", "")
@@ -107,7 +110,7 @@ def classify(backend, sc, evs, k):
         field = "closure-run-twice"
     else:
         field = str(what) + "-rejected"
-    flow = sc["flow"] if sc["kind"] not in ("burst", "nested") else "n=%d" % sc["n"]
+    flow = sc["flow"] if sc["kind"] not in BURSTY else "n=%d" % sc["n"]
     return "%s/%s(%s)/%s" % (backend, kind, flow if field in ("hang", "function-not-run", "get-value-or-order") else "*", field)
 
 
@@ -145,18 +148,18 @@ def run(chk, replay=None):
     reps = 1 if quick else 3
     for backend, threads in plans:
         exe = build.build("drv_tasks", backend=backend, san="address")
-        mine = [s for s in scen for _ in range(reps if s["kind"] not in ("burst", "nested") else 1)]
+        mine = [s for s in scen for _ in range(reps if s["kind"] not in BURSTY else 1)]
         if backend == "Debug":
             # schedule() is synchronous there: a closure scheduling 3000 closures recursively is just deep recursion
             mine = [s for s in mine if not (s["kind"] == "nested" and s["n"] > 600)]
         if backend == "OpenMP":
             # schedule() starts one detached std::thread per closure there: a burst of 30000 is a test of the
             # operating system's thread limits, not of the property - bursts stop at 1000 on this backend
-            mine = [s for s in mine if not (s["kind"] in ("burst", "nested") and s["n"] > 1000)]
+            mine = [s for s in mine if not (s["kind"] in BURSTY and s["n"] > 1000)]
         t0 = time.time()
         res = run_driver(exe, mine, threads, "c02-%s-%d" % (backend, threads))
         for kind, module in (("task", "TasksTrace"), ("burst", "ParallelForTrace")):
-            idx = [i for i, s in enumerate(mine) if (s["kind"] in ("burst", "nested")) == (kind == "burst")]
+            idx = [i for i, s in enumerate(mine) if (s["kind"] in BURSTY) == (kind == "burst")]
             execs = [res[i]["events"] for i in idx]
             acc, rej, stats = trace.validate(os.path.join(SPEC, module + ".tla"), os.path.join(SPEC, module + ".cfg"), execs,
                                              "c02-%s-%d-%s" % (backend, threads, kind), reset_key="ev", max_rejections=10, timeout=1200)
@@ -188,7 +191,7 @@ def do_replay(chk, path):
     exe = build.build("drv_tasks", backend=backend, san="address")
     n = 20
     res = run_driver(exe, [s] * n, threads, "c02-replay")
-    module = "ParallelForTrace" if s["kind"] in ("burst", "nested") else "TasksTrace"
+    module = "ParallelForTrace" if s["kind"] in BURSTY else "TasksTrace"
     execs = [res[i]["events"] for i in range(n)]
     acc, rej, stats = trace.validate(os.path.join(SPEC, module + ".tla"), os.path.join(SPEC, module + ".cfg"), execs, "c02-replay", reset_key="ev", max_rejections=3)
     chk.cov["evaluations"] += n
